@@ -101,6 +101,10 @@ func runC16(c *Ctx) {
 	nullDefinition(c, "C16.null-definition")
 	c16Normalise(c, d)
 	c16AssertOrigin(c)
+	// Go integers and floats read from the data become numbers with exactly their value (shared with C04)
+	if barms, und := c.binaryDispatch(); und == "" {
+		c04NoFloat(c, barms, "C16.numbers-enter-exactly")
+	}
 }
 
 // c16AssertOrigin: the parser sets SelectorExpression.Assert from the selector token consumed for
